@@ -197,7 +197,8 @@ Qed.
 Definition after_read (k : skind) (w : world) (p r : nat) : world :=
   {| w_data := w_data w;
      w_pos := match k with KBytesIO => Nat.max p (length (w_data w)) | KFile => w_pos w end;
-     w_reads := w_reads w + r |}.
+     w_reads := w_reads w + r;
+     w_heap := w_heap w |}.
 
 Theorem run_reader_ok k n sk w p : 1 <= n ->
   start_of k (length (w_data w)) (w_pos w) sk = Ok p ->
@@ -271,7 +272,7 @@ Proof.
     + rewrite H. cbn. apply exn_eqb_refl.
   - (* lazy *)
     cbn [iter_bytes c_src iter_src w_init w_reads].
-    set (wc := {| w_data := d1; w_pos := p1; w_reads := 0 |}).
+    set (wc := {| w_data := d1; w_pos := p1; w_reads := 0; w_heap := [] |}).
     change (set_source (w_init d0 p0) d1 p1) with wc. change (w_reads (w_init d0 p0)) with 0.
     pose proof (run_reader_want k n sk wc Hn) as H. cbn [wc w_data w_pos] in H.
     cbn [spec_okb]. unfold reader_okb, want. cbn [r_kind r_data0 r_pos0 r_seek r_chunk r_buffer r_data1 r_pos1].
@@ -297,17 +298,32 @@ Proof.
   pose proof (run_reader_want k n sk (w_init d0 p0) Hn) as H. cbn [w_init w_data w_pos] in H.
   cbn [spec_okb]. unfold snap_okb, want. cbn [r_kind r_data0 r_pos0 r_seek r_chunk r_buffer r_data1 r_pos1].
   destruct (start_of k (length d0) p0 sk) as [p|e].
-  - destruct H as [cs [R Hok]]. rewrite R. cbn [iter_bytes c_src c_type iter_src].
-    set (wd := set_source _ d1 p1).
-    pose proof (run_reader_want k n sk wd Hn) as H2. cbn [wd set_source w_data w_pos] in H2.
+  - destruct H as [cs [R Hok]]. rewrite R.
+    cbn [alloc after_read w_init w_heap w_data w_pos w_reads app length set_source iter_bytes c_src c_type iter_src heap_get nth].
+    match goal with |- context [run_reader k n sk ?W] => set (wd := W) end.
+    pose proof (run_reader_want k n sk wd Hn) as H2.
+    change (w_data wd) with d1 in H2. change (w_pos wd) with p1 in H2.
     rewrite Nat.ltb_irrefl.
     assert (Hct : ct_eqb Gen.Ctc16.UTF8_TEXT Gen.Ctc16.UTF8_TEXT = true) by (vm_compute; reflexivity).
     rewrite Hct. apply chunks_okb_joined in Hok.
     destruct (start_of k (length d1) p1 sk) as [q|e].
-    + destruct H2 as [cs2 [R2 Hok2]]. fold wd in R2. rewrite R2. cbn [joined_okb negb andb].
+    + destruct H2 as [cs2 [R2 Hok2]]. rewrite R2. cbn [joined_okb negb andb].
       rewrite Hok. apply (chunks_okb_joined _ _ _ Hok2).
-    + fold wd in H2. rewrite H2. cbn [joined_okb negb andb]. rewrite Hok. apply exn_eqb_refl.
+    + rewrite H2. cbn [joined_okb negb andb]. rewrite Hok. apply exn_eqb_refl.
   - rewrite H. cbn. apply exn_eqb_refl.
+Qed.
+
+(* gathering from an in-memory list: the copy lives at a new location *)
+Theorem snaplist_holds r : spec_okb (ISnapList r) (model_snaplist r) = true.
+Proof.
+  destruct r as [tup buf ops].
+  assert (Hct : ct_eqb Gen.Ctc16.UTF8_TEXT Gen.Ctc16.UTF8_TEXT = true) by (vm_compute; reflexivity).
+  unfold model_snaplist, copy_content. cbn [sl_tuple sl_buf sl_ops].
+  destruct tup;
+    cbn [iter_bytes c_src c_type iter_src alloc mutate w_heap w_data w_pos w_reads heap_get heap_set nth length app
+         spec_okb snaplist_okb sl_tuple sl_buf sl_ops joined_okb];
+    unfold snaplist_okb; cbn [sl_tuple sl_buf sl_ops joined_okb];
+    rewrite Hct, !bytes_eqb_refl; reflexivity.
 Qed.
 
 (* ================= 6. __eq__ ================= *)
@@ -795,7 +811,7 @@ Qed.
 (* ================= 8. the model meets the statement ================= *)
 Theorem model_meets_spec i : wf i = true -> finding_F16 i = false -> spec_okb i (model i) = true.
 Proof.
-  destruct i as [s|d|ct chunks|cs data|r|r|ta ca tb cb|ct]; intros Hwf Hf.
+  destruct i as [s|d|ct chunks|cs data|r|r|r|ta ca tb cb|ct]; intros Hwf Hf.
   - (* text_content *)
     cbn [spec_okb model]. simpl in Hwf.
     rewrite (text_roundtrip s w0 Hwf). cbn [fst]. rewrite tres_eqb_refl. cbn [andb].
@@ -812,6 +828,7 @@ Proof.
   - apply splits_holds.
   - apply reader_holds. simpl in Hwf. apply Nat.leb_le. exact Hwf.
   - apply snap_holds. simpl in Hwf. apply Nat.leb_le. exact Hwf.
+  - apply snaplist_holds.
   - cbn [spec_okb model]. rewrite content_eq_stored. cbn [fst]. rewrite !eqb_reflx. reflexivity.
   - apply mime_holds. simpl in Hf. apply negb_false_iff. exact Hf.
 Qed.
@@ -868,7 +885,7 @@ Qed.
 
 Theorem spec_okb_sound i o : spec_okb i o = true -> Spec i o.
 Proof.
-  destruct i as [s|d|ct chunks|cs data|r|r|ta ca tb cb|ct], o as [ct' b t|ct' b|b t|runs|cr rc i1 r1 i2 r2|cp sm c1 c2 ra og|e ne|echo res];
+  destruct i as [s|d|ct chunks|cs data|r|r|r|ta ca tb cb|ct], o as [ct' b t|ct' b|b t|runs|cr rc i1 r1 i2 r2|cp sm c1 c2 ra og|sm c1 c2 og|e ne|echo res];
     cbn [spec_okb Spec]; try discriminate; intro H.
   - apply andb_true_iff in H as [H1 H2]. split; [apply tres_eqb_spec; exact H1|apply text_okb_sound; exact H2].
   - apply tres_eqb_spec. exact H.
@@ -896,6 +913,10 @@ Proof.
       apply andb_true_iff in H as [H1 H2]. apply negb_true_iff in H2.
       repeat split; try assumption; apply joined_okb_sound; assumption.
     + apply exn_eqb_spec in H. subst. reflexivity.
+  - (* snapshot of a list *)
+    unfold snaplist_okb in H. apply andb_true_iff in H as [H H4]. apply andb_true_iff in H as [H H3].
+    apply andb_true_iff in H as [H1 H2].
+    repeat split; try assumption; apply joined_okb_sound; assumption.
   - (* eq *)
     apply andb_true_iff in H as [H1 H2]. apply (proj1 (bool_eqb_spec _ _)) in H1. apply (proj1 (bool_eqb_spec _ _)) in H2.
     split; [|exact H2]. rewrite H1, andb_true_iff, ct_eqb_iff. unfold bytes_eqb. rewrite bytes_eqb_spec. tauto.
@@ -1026,12 +1047,59 @@ Proof.
 Qed.
 
 (* C16_snapshot *)
+Lemma iter_src_heap src w : w_heap (snd (iter_src src w)) = w_heap w.
+Proof.
+  destruct src as [cs|k n sk|l]; cbn [iter_src snd]; try reflexivity.
+  unfold run_reader.
+  destruct (match sk with
+            | Some (off, wh) => seek_pos k (length (w_data w)) off wh
+            | None => Ok match k with KBytesIO => w_pos w | KFile => 0 end
+            end) as [p|e]; [|reflexivity].
+  destruct (read_loop (length (w_data w) - p + 1) (w_data w) p n) as [[[cs p'] r]|]; reflexivity.
+Qed.
+
+Lemma heap_get_alloc h v : heap_get (length h) (h ++ [v]) = v.
+Proof. unfold heap_get. rewrite app_nth2, Nat.sub_diag by lia. reflexivity. Qed.
+
+Lemma heap_set_other : forall h l l' v, l <> l' -> heap_get l' (heap_set l v h) = heap_get l' h.
+Proof.
+  unfold heap_get. induction h as [|x h IH]; intros l l' v Hne; [destruct l; reflexivity|].
+  destruct l as [|l], l' as [|l']; simpl; try reflexivity; try congruence.
+  apply IH. congruence.
+Qed.
+
 Theorem snapshot c w cp w1 : copy_content c w = (Ok cp, w1) ->
   c_type cp = c_type c
-  /\ exists cs, iter_bytes c w = (Ok cs, w1) /\ forall w', iter_bytes cp w' = (Ok cs, w').
+  /\ exists cs w', iter_bytes c w = (Ok cs, w')
+                   /\ c_src cp = InList (length (w_heap w))          (* a location that did not exist before *)
+                   /\ w_heap w1 = w_heap w ++ [cs]
+                   /\ forall w2, heap_get (length (w_heap w)) (w_heap w2) = cs -> iter_bytes cp w2 = (Ok cs, w2).
 Proof.
-  unfold copy_content. destruct (iter_bytes c w) as [[cs|e] w2]; intro H; [|discriminate].
-  injection H as <- <-. split; [reflexivity|]. exists cs. split; [reflexivity|]. intro w'. reflexivity.
+  unfold copy_content. pose proof (iter_src_heap (c_src c) w) as Hh. unfold iter_bytes in *.
+  destruct (iter_src (c_src c) w) as [[cs|e] w2]; intro H; [|discriminate].
+  cbn [snd] in Hh. unfold alloc in H. injection H as <- <-. cbn [c_type c_src w_heap]. rewrite Hh.
+  split; [reflexivity|]. exists cs, w2. repeat split.
+  intros w3 H3. cbn [iter_src]. rewrite H3. reflexivity.
+Qed.
+
+(* ... so no write to a location that existed when the copy was made (the source's own list included), and no
+   change of the stream/file, reaches the copy *)
+Theorem snapshot_unaffected c w cp w1 cs w' : copy_content c w = (Ok cp, w1) -> iter_bytes c w = (Ok cs, w') ->
+  forall writes : list (loc * list chunk), Forall (fun lv => fst lv < length (w_heap w)) writes ->
+  forall d p r,
+    let w2 := {| w_data := d; w_pos := p; w_reads := r;
+                 w_heap := fold_left (fun h lv => heap_set (fst lv) (snd lv) h) writes (w_heap w1) |} in
+    iter_bytes cp w2 = (Ok cs, w2).
+Proof.
+  intros Hc Hi writes Hw d p r w2.
+  destruct (snapshot c w cp w1 Hc) as [_ [cs0 [w0 [Hi0 [Hsrc [Hheap Hget]]]]]].
+  rewrite Hi in Hi0. injection Hi0 as <- <-.
+  apply Hget. subst w2. cbn [w_heap]. rewrite Hheap.
+  assert (G : forall h, heap_get (length (w_heap w)) h = cs ->
+              heap_get (length (w_heap w)) (fold_left (fun h lv => heap_set (fst lv) (snd lv) h) writes h) = cs).
+  { induction Hw as [|[l v] ws Hl _ IH]; intros h Hh; [exact Hh|]. cbn [fold_left fst snd]. apply IH.
+    rewrite heap_set_other; [exact Hh|]. simpl in Hl. lia. }
+  apply G. apply heap_get_alloc.
 Qed.
 
 (* C16_eq *)
